@@ -65,6 +65,21 @@ theorem rule_tables_consistent (m : Method)
             LogRule._derivative_mod_four_is_three, LogRule._derivative_mod_four_is_zero, fd_step, fd_offset,
             i1, i2, hn1, ho4, h, g, hmo4, hmo2] <;> omega)
 
+/-- the order a rule delivers (generated `LogRule.method_order`): the requested order rounded down to a multiple of the spacing of
+the method's error terms (generated `richardson_step`: 2, 1, or 2 / 4 for complex), at least one multiple — never less than the request
+by a whole step, never capped -/
+theorem method_order_spec (r : LogRule) :
+    r.method_order % r.richardson_step = 0 ∧ r.richardson_step ≤ r.method_order ∧
+    r.method_order ≤ max r.order r.richardson_step ∧ r.order < r.method_order + r.richardson_step ∧
+    (r.richardson_step = 1 ∨ r.richardson_step = 2 ∨ r.richardson_step = 4) := by
+  have hs : r.richardson_step = 1 ∨ r.richardson_step = 2 ∨ r.richardson_step = 4 := by
+    unfold LogRule.richardson_step
+    cases r.method <;> simp
+  have hmo : r.method_order = max ((r.order / r.richardson_step) * r.richardson_step) r.richardson_step := by
+    unfold LogRule.method_order; rfl
+  rcases hs with h | h | h <;> rw [hmo, h] <;> refine ⟨?_, ?_, ?_, ?_, ?_⟩ <;> omega
+
+
 /-- the tables have positive spacing, offset and scale on the admissible parities -/
 theorem fd_tables_pos (p : Nat) (hp : fd_parity_ok p = true) :
     1 ≤ fd_step p ∧ 1 ≤ fd_offset p ∧ 1 ≤ fd_c_0 p := by
